@@ -147,6 +147,8 @@ def analyse(ctx, fen, ops, impl, model, variant, stats):
         ctx.violation(f"FEN written by toFEN is rejected by readFEN after op {k} from `{fen}`: {m.group(0)}",
                       {"kind": "property-predicate", "variant": variant, "input": [f"pos run {fen} | {pre}"], "record": recs[k][:600]})
         return
+    impl = re.sub(r" (reuse|see)=ok", "", impl)      # implementation-only predicates (reused-object deSerialize, SEE make/unmake): judged above
+    recs = impl.split(" ; ")
     if impl != model:
         mr = model.split(" ; ")
         k = next((i for i, (a, b) in enumerate(zip(recs, mr)) if a != b), min(len(recs), len(mr)))
